@@ -1,5 +1,6 @@
 import Driver.Codec
 import Driver.Chain
+import Driver.Merkle
 /-
   Line-protocol driver of the executable Lean models. `driver <suite>` reads one request per line on stdin
   and answers one line per request on stdout. One sub-driver per model family (Driver/<Suite>.lean).
@@ -8,4 +9,5 @@ def main (args : List String) : IO Unit :=
   match args with
   | ["codec"] => Drv.Codec.run
   | ["chain"] => Drv.Chain.run
+  | ["merkle"] => Drv.Merkle.run
   | _ => do IO.eprintln "usage: driver <suite>"; IO.Process.exit 2
